@@ -237,3 +237,35 @@ Definition package_map (mt : vreq -> ver -> bool) (r : resolution) (man : manife
       end
   | Panic => Panic | Err => Err | OutOfFuel => OutOfFuel
   end.
+
+(* ------------------------------------------------------------------ keeping a lock file *)
+
+Fixpoint lookup_name (n : string) (l : list (string * entryname)) : option entryname :=
+  match l with
+  | [] => None
+  | (m, e) :: t => if String.eqb n m then Some e else lookup_name n t
+  end.
+
+Fixpoint lookup_entry (en : entryname) (acc : lockacc) : option lockentry :=
+  match acc with
+  | [] => None
+  | (en', e) :: t => if entryname_eqb en en' then Some e else lookup_entry en t
+  end.
+
+(* ManifestFile::is_lock_file_up_to_date for index dependencies: every dependency of the manifest
+   has a lock entry under its name, for the same package id, with a version accepted by
+   Dependency::matches (= VersionReq::matches) *)
+Definition up_to_date (mt : vreq -> ver -> bool) (l : lockfile) (man : manifest) : bool :=
+  forallb (fun d =>
+             match lookup_name (dname d) (fst l) with
+             | None => false
+             | Some en =>
+                 match lookup_entry en (snd l) with
+                 | None => false
+                 | Some e => N.eqb (dpkg d) (fst (fst e)) && mt (dreq d) (snd (fst e))
+                 end
+             end) man.
+
+(* resolve::copy_from_lock: the versions of all index entries of the lock file *)
+Definition copy_from_lock (l : lockfile) : list (N * list ver) :=
+  index_packages (locked_of (lock_entries l)).
